@@ -36,6 +36,8 @@ def _variants(prop):
         if not os.path.exists(mp):
             continue
         meta = json.load(open(mp))
+        if meta.get("expected_undetected"):
+            continue  # recorded miss (reason in its meta.json and DESIGN.md 9.6): kept for the record, not asserted
         if meta.get("breaks_property") == prop or prop in (meta.get("also_breaks") or []):
             out.append({"id": "seeded:" + os.path.basename(d), "kind": "mutant", "edits": None, "patch": os.path.join(d, "patch.diff")})
     # generated twin: every module re-emitted by ast.unparse (comments gone, layout and line numbers changed)
